@@ -607,13 +607,22 @@ def strategy_entries(ctx):
             ["nl", "absdelta", [EAGER, rot[r]]]]
 
 
+def resume_entries(ctx):
+    """[sample_mode, n_samples, total iterations, iterations after which the run is stopped and resumed]"""
+    if ctx.quick:
+        c = [[1], [2], [1, 2]]
+        return [["nonlinear_resample", 2, 3, c[ctx.seed % 3]], ["linear_resample", 2, 3, c[(ctx.seed + 1) % 3]]]
+    return [["nonlinear_resample", 2, 4, [1, 3]], ["linear_resample", 2, 3, [2]], ["linear_resample", 3, 3, [1, 2]],
+            ["nonlinear_sample", 2, 3, [1]], ["nonlinear_update", 2, 3, [2]], ["linear_resample", 0, 3, [1]]]
+
+
 def runs_spec(ctx):
     if ctx.quick:
         return {"seed": 7 + ctx.seed, "classic": True, "jax_modes": [["nonlinear_resample", 3]],
-                "jax_configs": QUICK_CONFIGS, "strategy": strategy_entries(ctx)}
+                "jax_configs": QUICK_CONFIGS, "strategy": strategy_entries(ctx), "resume": resume_entries(ctx)}
     return {"seed": 7 + ctx.seed, "classic": True,
             "jax_modes": [["nonlinear_resample", 3], ["linear_resample", 2], ["nonlinear_sample", 2]],
-            "jax_configs": ALL_CONFIGS, "strategy": strategy_entries(ctx)}
+            "jax_configs": ALL_CONFIGS, "strategy": strategy_entries(ctx), "resume": resume_entries(ctx)}
 
 
 def start_runs(ctx, spec, tag):
@@ -664,6 +673,12 @@ def compare_runs(outs):
                               "samples for solver options `%s` with %s differ from %s by %.2e (relative; allowed %.0e)"
                               % (k, nm, names[0], rel, STRAT_TOL[k]), {"form": k, "variant": nm, "reference": names[0]}))
                 break
+    for k, r in sorted(b.get("resume", {}).items()):
+        if json.dumps(r["uninterrupted"], sort_keys=True) != json.dumps(r["segmented"], sort_keys=True):
+            diff = [f for f in r["uninterrupted"] if r["uninterrupted"][f] != r["segmented"][f]]
+            fails.append(({"part": "jax_stop_resume", "mode": k.split(":")[0]},
+                          "JAX optimize_kl %s: stopped + resumed run is not bit-identical to the uninterrupted run "
+                          "with the same seed (differs in %s)" % (k, ", ".join(diff)), {"entry": k}))
     for k in sorted(a):
         if k == "strategy":
             continue                      # computed by the first process only
@@ -1074,7 +1089,8 @@ class C21(C.Check):
             res.add_failing(sig, what, inp)
         res.coverage["impl_property_evaluations"] = n + nv + sum(
             len(v) if k.startswith("jax:") else (sum(len(x) for x in v.values()) if k == "strategy" else 1)
-            for k, v in outs[0].items())
+            for k, v in outs[0].items()) + 2 * len(outs[1].get("resume", {}))
+        res.coverage["jax_stop_resume"] = sorted(outs[1].get("resume", {}))
         res.coverage["sampling_strategy_pairs"] = {k: list(v) for k, v in outs[0].get("strategy", {}).items()}
         cleanup_scratch(self.prop)
         res.coverage["differential_runs"] = {"runs": sorted(outs[0]), "jax_configs": sorted(
